@@ -18,3 +18,8 @@ Ltac destruct_tuples :=
       let T' := eval hnf in T in
       match T' with (_ * _)%type => destruct x end
   end.
+
+(* like num_unfold, but leaves occurrences of the instances that are mere arguments of model
+   functions (e.g. [@vnorm R NumR TransR x]) untouched *)
+Ltac num_simpl :=
+  cbn [add sub mul div opp zero one ofZ two half frac tsqrt tsin tcos tatan texp tln tpi NumR TransR] in *.
